@@ -23,6 +23,7 @@ Assumptions, all explicit in the statements:
 import Neutrino.Lemmas.Converge
 import Neutrino.Spec.Converge
 import Neutrino.Gen.SyncPeer
+import Neutrino.Lemmas.SyncAsk
 namespace Neutrino.Net
 
 /-- **C04 safety.**  For every world, every acceptance rule that is sound, every
@@ -353,6 +354,160 @@ example : (Neutrino.Converge.Truth.init 10).safeBlockTip (.tip 7 "x") = false :=
 example : (Neutrino.Converge.Truth.init 10).safeBlockTip (.tip 11 "t11") = false := by decide
 example : ((Neutrino.Converge.Truth.init 10).reorg 2 3).safeFilterTip (.tip 11 "fa11") = true := by decide
 example : ((Neutrino.Converge.Truth.init 10).reorg 2 3).honestId = "a11" := by decide
+
+end Neutrino.Net
+
+/-! ## who gets asked for headers (model: Neutrino/Model/SyncAsk.lean) -/
+namespace Neutrino.Ask
+
+/-- **Source facts** the request model rests on (regenerated on every run): the
+only early returns of `startSync` are "there is a sync peer" and a failed store
+read; `handleNewPeerMsg` asks a new peer on the spot iff it announces more than
+our tip and `BlockHeadersSynced()`; `handleInvMsg` ignores an announcement iff
+its sender is not the sync peer and not `BlockHeadersSynced()`. -/
+theorem C04_ask_source :
+    Neutrino.Gen.SyncPeer.startSyncEarlyReturns = ["b.syncPeer!=nil", "err!=nil"] ∧
+    Neutrino.Gen.SyncPeer.newPeerAskCond = "height<uint32(sp.StartingHeight())&&b.BlockHeadersSynced()" ∧
+    Neutrino.Gen.SyncPeer.invIgnoreCond = "imsg.peer!=b.SyncPeer()&&!b.BlockHeadersSynced()" := by decide
+
+/-- In every reachable state a sync peer that is ahead of us has a request outstanding. -/
+theorem C04_sync_peer_ahead_is_asked (evs : List Ev) :
+    ∀ q, (run init evs).sync = some q → (run init evs).tip < q.claim → q ∈ (run init evs).asked :=
+  WF_run evs init WF_init
+
+theorem startSync_asked_mono (s : State) (x : Peer) (h : x ∈ s.asked) : x ∈ (startSync s).asked := by
+  unfold startSync
+  cases s.sync with
+  | some q => exact h
+  | none =>
+    simp only
+    cases best (candidates s) with
+    | none => exact h
+    | some b => exact List.mem_cons_of_mem _ h
+
+/-- **The statement as one would like it**: whenever a peer that announces more
+than our tip arrives while no request is outstanding, the handler step for its
+arrival issues a request to a peer at least as far ahead.  FALSE of the code:
+`C04_ahead_peer_asked_counterexample`. -/
+def AheadPeerAsked : Prop :=
+  ∀ (s : State) (p : Peer), WF s → p ∉ s.peers → s.tip < p.claim → s.asked = [] →
+    ∃ q ∈ (step s (.newPeer p)).asked, p.claim ≤ q.claim
+
+/-- A stale tip (older than 24 h) and a sync peer level with us: the higher peer
+that connects is not asked, and neither is it when it later announces a block. -/
+def staleState : State :=
+  { tip := 10, fresh := false, peers := [⟨1, 10⟩], sync := some ⟨1, 10⟩, asked := [] }
+
+theorem C04_ahead_peer_asked_counterexample : ¬ AheadPeerAsked := by
+  intro h
+  have h1 := h staleState ⟨2, 15⟩ (by intro q hq hlt; simp only [staleState, Option.some.injEq] at hq; rw [← hq] at hlt; exact absurd hlt (by decide))
+    (by decide) (by decide) rfl
+  revert h1
+  decide
+
+example : (run staleState [.newPeer ⟨2, 15⟩, .inv ⟨2, 15⟩ 16]).asked = [] := by decide
+
+/-- **C04_ahead_peer_asked (arrival)** — what the code guarantees: outside the
+recorded shape (the tip is fresh, or there is no sync peer) the arrival of a
+peer announcing more than our tip, with no request outstanding, issues a request
+in that very handler step - to the new peer itself when we are current, else to
+the candidate `startSync` selects, which announces at least as much. -/
+theorem C04_ahead_peer_asked (s : State) (p : Peer) (hwf : WF s) (hnew : p ∉ s.peers)
+    (hahead : s.tip < p.claim) (hq : s.asked = []) (hshape : s.fresh = true ∨ s.sync = none) :
+    ∃ q ∈ (step s (.newPeer p)).asked, p.claim ≤ q.claim := by
+  simp only [step, hnew, ↓reduceIte]
+  by_cases hf : s.fresh = true
+  · -- current: a sync peer, if any, is not ahead (it would have a request outstanding)
+    have hcur : current { s with peers := s.peers ++ [p] } = true := by
+      simp only [current, hf, Bool.true_and]
+      cases hs : s.sync with
+      | none => rfl
+      | some q =>
+        simp only [decide_eq_true_eq]
+        by_cases hlt : s.tip < q.claim
+        · have := hwf q hs hlt
+          rw [hq] at this
+          exact absurd this List.not_mem_nil
+        · exact Nat.le_of_not_lt hlt
+    have hc : s.tip < p.claim ∧ current { s with peers := s.peers ++ [p] } = true := ⟨hahead, hcur⟩
+    simp only [hc, and_self, ↓reduceIte]
+    exact ⟨p, startSync_asked_mono _ p List.mem_cons_self, Nat.le_refl _⟩
+  · have hs : s.sync = none := by
+      cases hshape with
+      | inl h => exact absurd h hf
+      | inr h => exact h
+    have hncur : ¬ (s.tip < p.claim ∧ current { s with peers := s.peers ++ [p] } = true) := by
+      intro hc
+      have hff : s.fresh = false := by cases hb : s.fresh with | true => exact absurd hb hf | false => rfl
+      simp only [current, hff, Bool.false_and] at hc
+      exact absurd hc.2 (by decide)
+    simp only [hncur, ↓reduceIte]
+    have hpc : p ∈ candidates { s with peers := s.peers ++ [p] } := by
+      simp only [candidates]
+      apply List.mem_filter.mpr
+      exact ⟨List.mem_append_right _ List.mem_cons_self, by simp only [decide_eq_true_eq]; exact Nat.le_of_lt hahead⟩
+    have hne : candidates { s with peers := s.peers ++ [p] } ≠ [] := by
+      intro he; rw [he] at hpc; exact absurd hpc List.not_mem_nil
+    unfold startSync
+    simp only [hs]
+    split
+    · next hnone =>
+      obtain ⟨b, hb⟩ := best_some hne
+      have hb' : best (candidates { tip := s.tip, fresh := s.fresh, peers := s.peers ++ [p], sync := none, asked := s.asked }) = some b := hb
+      rw [hb'] at hnone
+      cases hnone
+    · next b hb =>
+      have hpc' : p ∈ candidates { tip := s.tip, fresh := s.fresh, peers := s.peers ++ [p], sync := none, asked := s.asked } := hpc
+      exact ⟨b, List.mem_cons_self, best_ge hb p hpc'⟩
+
+/-- **C04_ahead_peer_asked (announcement)**: an `inv` for a block above our tip
+from a connected peer is answered with a request when the tip is fresh and no
+request is outstanding, or when its sender is the sync peer. -/
+theorem C04_ahead_peer_asked_inv (s : State) (p : Peer) (h : Nat) (hwf : WF s) (hp : p ∈ s.peers)
+    (hahead : s.tip < h) (hq : s.asked = []) (hshape : s.fresh = true ∨ s.sync = some p) :
+    p ∈ (step s (.inv p h)).asked := by
+  have hl : s.sync = some p ∨ current s = true := by
+    cases hshape with
+    | inr hs => exact Or.inl hs
+    | inl hf =>
+      right
+      simp only [current, hf, Bool.true_and]
+      cases hs : s.sync with
+      | none => rfl
+      | some q =>
+        simp only [decide_eq_true_eq]
+        by_cases hlt : s.tip < q.claim
+        · have := hwf q hs hlt
+          rw [hq] at this
+          exact absurd this List.not_mem_nil
+        · exact Nat.le_of_not_lt hlt
+  have hc : p ∈ s.peers ∧ (s.sync = some p ∨ current s = true) ∧ s.tip < h := ⟨hp, hl, hahead⟩
+  simp only [step, hc, and_self, ↓reduceIte]
+  exact List.mem_cons_self
+
+/-- the done event of the sync peer hands the sync to a remaining candidate that
+is not behind us and asks it (no `current` test in between) -/
+theorem C04_done_asks_replacement (s : State) (p b : Peer) (hs : s.sync = some p)
+    (hb : best (candidates { s with peers := s.peers.filter (· ≠ p), asked := s.asked.filter (· ≠ p), sync := none }) = some b) :
+    (step s (.donePeer p)).sync = some b ∧ b ∈ (step s (.donePeer p)).asked := by
+  simp only [step, hs, ↓reduceIte]
+  unfold startSync
+  simp only
+  split
+  · next hnone =>
+    have hb' : best (candidates { tip := s.tip, fresh := s.fresh, peers := s.peers.filter (· ≠ p), sync := none, asked := s.asked.filter (· ≠ p) }) = some b := hb
+    rw [hb'] at hnone
+    cases hnone
+  · next b' hb2 =>
+    have hb' : best (candidates { tip := s.tip, fresh := s.fresh, peers := s.peers.filter (· ≠ p), sync := none, asked := s.asked.filter (· ≠ p) }) = some b := hb
+    rw [hb'] at hb2
+    simp only [Option.some.injEq] at hb2
+    rw [← hb2]
+    exact ⟨rfl, List.mem_cons_self⟩
+
+end Neutrino.Ask
+
+namespace Neutrino.Net
 
 /-- the two mutated handler steps break the invariant on the example state -/
 example : ¬ Inv exWorld (forgetThenDone exState exSilent) := by
